@@ -217,7 +217,7 @@ pub fn check(tier: Tier) -> Check {
             "refresh rounds are observed through the guarded hook in TableRefresh::continue_refresh (rounds that ping nobody leave no trace on the wire)",
         ],
         deciding: vec!["C18"],
-        streams: vec![Stream::new("cadence", tier.pick(48, 480), scenario).budget(tier.pick(600.0, 3000.0), tier.pick(48, 200))],
+        streams: vec![Stream::new("cadence", tier.pick(96, 480), scenario).budget(tier.pick(600.0, 3000.0), tier.pick(96, 200))],
         require: vec![
             ("refresh_rounds_observed", tier.pick(20_000, 1_000_000)),
             ("bootstrap_completions_observed", tier.pick(5_000, 200_000)),
